@@ -28,6 +28,42 @@ pub fn size_strategy() -> impl Strategy<Value = u32> {
     ]
 }
 
+/// sample sizes around and beyond the 64 KiB mark (readers and writers that buffer in 64 KiB steps)
+pub const BIG_SIZES: [u32; 7] = [65_535, 65_536, 65_537, 70_001, 131_072, 131_073, 200_003];
+
+/// With probability `weight`, one sample of the movie (table or fragment run) gets a size from
+/// `BIG_SIZES`; everything else about the movie is unchanged.
+pub fn with_big_sample<S: Strategy<Value = Movie>>(s: S, weight: f64) -> impl Strategy<Value = Movie> {
+    (s, prop::bool::weighted(weight), any::<u16>(), 0usize..BIG_SIZES.len()).prop_map(|(mut m, on, frac, cls)| {
+        if on {
+            let mut slots: Vec<(usize, usize, usize)> = Vec::new(); // (0, track, sample) | (1 + frag, traf, sample)
+            for (ti, t) in m.tracks.iter().enumerate() {
+                for k in 0..t.samples.len() {
+                    slots.push((0, ti, k));
+                }
+            }
+            for (fi, f) in m.frags.iter().enumerate() {
+                for (xi, tr) in f.trafs.iter().enumerate() {
+                    if tr.has_trun && tr.trun_size {
+                        for k in 0..tr.samples.len() {
+                            slots.push((1 + fi, xi, k));
+                        }
+                    }
+                }
+            }
+            if !slots.is_empty() {
+                let (a, b, k) = slots[(frac as usize * slots.len()) >> 16];
+                if a == 0 {
+                    m.tracks[b].samples[k].size = BIG_SIZES[cls];
+                } else {
+                    m.frags[a - 1].trafs[b].samples[k].size = BIG_SIZES[cls];
+                }
+            }
+        }
+        m
+    })
+}
+
 pub fn dur_strategy() -> impl Strategy<Value = u32> {
     prop_oneof![
         2 => Just(0u32),
@@ -481,8 +517,9 @@ pub fn meta_strategy() -> impl Strategy<Value = (Meta, MetaExpect)> {
         prop::bool::weighted(0.85),
         (unknown_atoms(), unknown_atoms(), unknown_atoms()),
         any::<u64>(),
+        prop_oneof![2 => Just(0u64), 1 => 1u64..u64::MAX],
     )
-        .prop_map(|((title, summary, year, poster), unknown_items, handler, quicktime, hdlr_last, has_ilst, (pre, post, udta_extra), order_seed)| {
+        .prop_map(|((title, summary, year, poster), unknown_items, handler, quicktime, hdlr_last, has_ilst, (pre, post, udta_extra), order_seed, large_seed)| {
             let mut items: Vec<MetaItem> = Vec::new();
             let mut exp = MetaExpect::default();
             let mdir = handler == cc("mdir");
@@ -533,7 +570,7 @@ pub fn meta_strategy() -> impl Strategy<Value = (Meta, MetaExpect)> {
                 exp.poster = None;
                 exp.absent_reason = Some(if !mdir { "other handler" } else { "no ilst" });
             }
-            (Meta { handler, quicktime, items: if has_ilst { Some(items) } else { None }, hdlr_last, udta_extra }, exp)
+            (Meta { handler, quicktime, items: if has_ilst { Some(items) } else { None }, hdlr_last, udta_extra, large_seed }, exp)
         })
 }
 
